@@ -629,6 +629,14 @@ def run_case(i, seed, tier):
     g2.uniq = h.gen.uniq + 500
     g2.next_cid = h.gen.next_cid + 500
     inst = fn(g2, s.model, which)
+    if inst is not None and api == 'add_eltorito' and inst[1].get('bootfile_path') and rng.random() < 0.6:
+        # later behaviour that depends on what a refused add_eltorito may have left behind: the
+        # would-be boot file loses all its names (its content must be released in both runs)
+        node = s.model.ns['iso'].get(inst[1]['bootfile_path'])
+        if node is not None and node.kind == 'file' and node.cid is not None and not s.model.boot_refs(node.cid):
+            tail = [{'op': 'rm_hard_link', '%s_path' % ns_: p_} for ns_, p_ in s.model.names_of(node.cid)]
+            ops = ops[:inject_at] + tail + [o for o in ops[inject_at:] if o['op'] not in ('add_eltorito',)]
+            counters['eltorito_refusal_followed_by_unlink'] = 1
     s.close()
     if inst is None:
         return {'verdict': 'held', 'violations': [], 'nontrivial': False, 'shape': 'na:%s:%s' % (api, which), 'sample': None,
